@@ -464,7 +464,21 @@ pub fn render(doc: &ANode, ch: &mut dyn Choices, opts: &RenderOpts) -> Rendered 
         let want_decl = opts.encoding_label.is_some() || (opts.allow_decl && !opts.plain && out.ch.chance(1, 3));
         if want_decl {
             let q = if out.ch.pick(2) == 0 { '"' } else { '\'' };
-            out.raw(&format!("<?xml version={q}1.0{q}"));
+            // white space inside the declaration: S after the target and between pseudo-attributes, S? around '='
+            let (s1, eq, s2) = match out.ch.pick(7) {
+                0..=2 => (" ", "=", " "),
+                3 => ("\n", "=", "\n"),
+                4 => (" ", " = ", "  "),
+                5 => ("\t", "\t=\n", "\r\n"),
+                _ => ("\r\n", "= ", " \t"),
+            };
+            if s1 != " " {
+                out.feat("declaration-target-followed-by-tab-or-line-break");
+            }
+            if eq != "=" {
+                out.feat("declaration-whitespace-around-equals");
+            }
+            out.raw(&format!("<?xml{s1}version{eq}{q}1.0{q}"));
             let enc = match &opts.encoding_label {
                 Some(l) => Some(l.clone()),
                 None => match out.ch.pick(3) {
@@ -474,12 +488,12 @@ pub fn render(doc: &ANode, ch: &mut dyn Choices, opts: &RenderOpts) -> Rendered 
                 },
             };
             if let Some(e) = enc {
-                out.raw(&format!(" encoding={q}{e}{q}"));
+                out.raw(&format!("{s2}encoding{eq}{q}{e}{q}"));
             }
             match out.ch.pick(3) {
                 0 => {}
-                1 => out.raw(&format!(" standalone={q}yes{q}")),
-                _ => out.raw(&format!(" standalone={q}no{q}")),
+                1 => out.raw(&format!("{s2}standalone{eq}{q}yes{q}")),
+                _ => out.raw(&format!("{s2}standalone{eq}{q}no{q}")),
             }
             out.ws(false);
             out.raw("?>");
